@@ -55,6 +55,12 @@ def menu(kind):
         m[9] = ([("ens", 0)], 0, "all", None)          # differs from m[4] only in the member number
         m[14] = ([("obs",), ("ens", 1)], 1, "leadtime", 0)
         m[15] = ([("obs",), ("ens", 0)], 1, "leadtime", 0)
+    if kind == "plain":
+        m[13] = ("diagram", "fss", None, None)
+        m[6] = ("diagram", "droc", None, None)
+    if kind == "nccdf":
+        m[14] = ("diagram", "reliability", None, None)
+        m[15] = ("diagram", "discrimination", None, None)
     if kind == "nccdf":
         # NetCDF files with stored probabilities / quantiles and per-variable fill values: every variable is read on demand
         m[2] = ([("thr", 5.0)], 0, "all", None)
@@ -89,6 +95,21 @@ def make_ds(rng, kind):
 def request(data, req):
     import verif.axis
     fields, k, axis, idx = req
+    if fields == "diagram":
+        # a consumer inside verif: a diagram drawn from this Data object (its numbers are not compared here - it must leave the
+        # dataset as it found it)
+        import numpy as np
+        import matplotlib.pyplot as mpl
+        import verif.output
+        pl = verif.output.get(k)
+        pl.thresholds = np.array([5.0])
+        pl.filename = None
+        try:
+            pl.plot(data)
+        except SystemExit:
+            pass
+        mpl.close("all")
+        return [np.zeros(1)]
     vf = [vutil.vfield(tuple(f) if isinstance(f, (tuple, list)) else (f,)) for f in fields]
     arg = vf if len(vf) > 1 else vf[0]
     if axis == "all":
